@@ -16,7 +16,7 @@ from pykdebugparser.trace_codes import from_trace_codes_text
 from pykdebugparser.pykdebugparser import PyKdebugParser
 
 IDFORMS = ['0x40c0548', '40c0548', '0X40C0548', '0x0', 'ffffffff', '0x00000001', '21000010', '10']      # the last two: no prefix, decimal digits only (still hex)
-NAMES = ['A', 'BSC_read', 'a.b-c', 'IO#x', '#n;//']
+NAMES = ['A', 'BSC_read', 'a.b-c', 'IO#x', '#n;//', 'IO\ufeffx', '\u200bA']      # the last two: invisible characters that are NOT white space are part of a name
 SEPS = [' ', '\t', ' \t  ']
 TRAILS = ['', ' #comment', '\textra col fd 64 0x2100000c c',      # a tail whose words look like ids, the last one at the very end of the line
           ' # page 1\x0cfd0 NOT_A_LINE \u2028 fd1 NEITHER']        # a tail holding characters some splitters take for line ends (FF, U+2028)
@@ -332,6 +332,35 @@ def judge_filters_follow_the_table():
     return bad
 
 
+def judge_absent_ids_inside_windows():
+    """records whose id the supplied table LACKS sit inside the windows of composites the table names (page fault, sample, launch, a
+    call with a lookup): they are shown as bare hex in the event listing, are never decoded, and the composites decode as without them."""
+    import io
+    from pykdebugparser.pykdebugparser import PyKdebugParser
+    T = default_table()
+    absent = 0x2b5a0000
+    assert absent not in T
+    n = E.n2i
+
+    def stream(with_absent):
+        x = [B.rec(0, (1, 2, 3, 4), 1, absent | q) for q in (0, 1, 3)] if with_absent else []
+        recs = [B.rec(0, (0xaaaa, 0xbbbb, 1, 0), 1, n('MACH_vmfault') | 1)] + x + [B.rec(0, (0x7000, (0x99 << 16) | (3 << 8) | 2, 5, 77), 1, n('RealFaultAddressInternal'))] + x + \
+               [B.rec(0, (0, 0, 0, 2), 1, n('MACH_vmfault') | 2),
+                B.rec(0, (8, 1, 0, 0), 1, n('PERF_Event') | 1)] + x + [B.rec(0, (1, 2, 0, 0), 1, n('PERF_STK_UHdr')), B.rec(0, (0x1010, 0x2020, 0, 0), 1, n('PERF_STK_UData'))] + x + \
+               [B.rec(0, (8, 0, 0, 0), 1, n('PERF_Event') | 2),
+                B.rec(0, (1, 0, 0, 0), 1, n('BSC_open') | 1)] + x + [B.rec(0, tid=1, debugid=n('VFS_LOOKUP') | q, data=d) for d, q in B.lookup_chunks(0x77, '/etc/hosts')] + x + \
+               [B.rec(0, (0, 3, 0, 0), 1, n('BSC_open') | 2)]
+        return B.v2([(1, 10, 'A')], 0, [(i + 1).to_bytes(8, 'little') + r[8:] for i, r in enumerate(recs)])
+    try:
+        base = [str(t) for t in PyKdebugParser().traces(io.BytesIO(stream(False)), T)]
+        got = [str(t) for t in PyKdebugParser().traces(io.BytesIO(stream(True)), T)]
+    except Exception as ex:
+        return [('decoding-under-supplied-table-raised', {'error': repr(ex)[:200], 'stream': 'records of an id the table lacks inside composite windows'})]
+    if got != base or not any('pid: 77' in g for g in base):
+        return [('composite-decoded-differently-with-records-of-an-absent-id-inside', {'got': got[:6], 'without_them': base[:6]})]
+    return []
+
+
 def judge_file_loader():
     """from_trace_codes_file: what is loaded is what the file holds NOW - also when the file was replaced without its
     modification time changing, and for several files in turn."""
@@ -485,6 +514,9 @@ class C19(Check):
             if dict(default_trace_codes()) != a_copy or a_copy != default_table():
                 acc.violation('bundled-table-load-not-repeatable', {'kind': 'file-loader'}, {})
         elif desc[0] == 'callstacks':
+            for sig, detail in judge_absent_ids_inside_windows():
+                acc.violation(sig, {'kind': 'absent-ids-inside-windows'}, detail)
+            acc.case(nontrivial=True, transitions=30)
             for sig, detail in judge_filters_follow_the_table():
                 acc.violation(sig, {'kind': 'filters-follow-the-table'}, detail)
             acc.case(nontrivial=True, transitions=18)
@@ -516,6 +548,8 @@ class C19(Check):
             d = dict(edits())
             bad = judge_two_listings([tuple(x) for x in case['ops']], case['edits'][0], d[case['edits'][0]], case['edits'][1], d[case['edits'][1]])
             return [(bad[0] + ':two-lazy-listings', bad[1])] if bad else []
+        if case['kind'] == 'absent-ids-inside-windows':
+            return judge_absent_ids_inside_windows()
         if case['kind'] == 'filters-follow-the-table':
             return judge_filters_follow_the_table()
         if case['kind'] == 'file-loader':
